@@ -567,6 +567,99 @@ def run_item(acc, spec, ptk, tier):
                     do_dd(acc, orc, gcache, vlabel, xform, vform, method, order)
 
 
+# -- affine selection maps that return VIEWS of their argument ---------------------------------------
+# f(x) = x, x[::-1], x[1:], x[::2], x.reshape(2, n/2), x.reshape(2, n/2).T: affine maps whose Jacobian entries are
+# exactly 0 / 1.  The result object aliases the array the library handed to f; a library that keeps working on
+# that array after the call corrupts the result.
+
+SELECT_MAPS = ('identity', 'reversed', 'tail', 'every-second', 'reshape', 'reshape-T')
+
+
+def select_map(name, n):
+    """(python function, exact Jacobian as an integer array of the documented shape) or None"""
+    idx = np.arange(n)
+    if name == 'identity':
+        f, sel = (lambda x: x), idx
+    elif name == 'reversed':
+        f, sel = (lambda x: x[::-1]), idx[::-1]
+    elif name == 'tail':
+        if n < 2:
+            return None
+        f, sel = (lambda x: x[1:]), idx[1:]
+    elif name == 'every-second':
+        if n < 3:
+            return None
+        f, sel = (lambda x: x[::2]), idx[::2]
+    elif name in ('reshape', 'reshape-T'):
+        if n % 2 or n < 4:
+            return None
+        if name == 'reshape':
+            f, sel = (lambda x: x.reshape(2, n // 2)), idx.reshape(2, n // 2)
+        else:
+            f, sel = (lambda x: x.reshape(2, n // 2).T), idx.reshape(2, n // 2).T
+    else:
+        raise KeyError(name)
+    if sel.ndim == 1:
+        J = (sel[:, None] == idx[None, :]).astype(int)                    # (m, n)
+    else:
+        J = (sel[:, None, :] == idx[None, :, None]).astype(int)           # (m, n, k): d f[i, l] / d x_j
+    return f, J, sel
+
+
+def do_select(acc, name, n, ptk, method, order):
+    import numdifftools as nd
+    sm_ = select_map(name, n)
+    if sm_ is None:
+        return None
+    f, J, sel = sm_
+    xs = [float(v) for v in ridge.point(ptk, n)]
+    x = np.array(xs)
+    case = ('select', name, n, ptk, method, order)
+    jc = dict(part='select', map=name, n=n, point=ptk, method=method, order=order)
+    cells = ['select/map=%s' % name, 'select/method=%s/order=%d' % (method, order)]
+    head = 'Jacobian(f, method=%r, order=%d)(x) with f(x) = %s of x (a view of its argument), x = %r' % (
+        method, order, name, xs)
+    status, val = call(lambda: nd.Jacobian(f, method=method, order=order)(x))
+    if method == 'multicomplex' and name != 'identity' and status != 'ok':
+        # the multicomplex method hands f a Bicomplex object, which is not indexable: outside the statement
+        acc.count('select:multicomplex-object-not-indexable')
+        return None
+    if status != 'ok':
+        acc.case(case, nontrivial=True, cell=cells, outcome=status)
+        acc.violation('C03:Jacobian:%s:selection-map' % status, jc, '%s raised %s' % (head, val), n)
+        return '%s raised %s' % (head, val)
+    val = np.asarray(val)
+    want = J.shape if not (J.ndim == 2 and J.shape[0] == 1 and False) else J.shape
+    if val.shape != want:
+        acc.case(case, nontrivial=True, cell=cells, outcome=('shape', val.shape))
+        text = '%s has shape %r, expected %r' % (head, val.shape, want)
+        acc.violation('C03:Jacobian:shape:selection-map', jc, text, n)
+        return text
+    scale = 1.0 + np.abs(x[sel])                                         # |A||x| + |A_ij| of the row
+    allow = AFFINE_UNITS * EPS * (scale[:, None] if J.ndim == 2 else scale[:, None, :])
+    err = np.abs(val - J)
+    bad = ~(err <= allow)
+    acc.case(case, nontrivial=True, cell=cells, outcome=('select', bool(bad.any())))
+    if bad.any():
+        i = tuple(int(v) for v in np.argwhere(bad)[0])
+        text = ('%s: entry %r = %r, exact %d (error %.3g > 1e4 eps x (|x|+1)); %d of %d entries fail'
+                % (head, i, val[i], J[i], float(err[i]), int(bad.sum()), bad.size))
+        acc.violation('C03:Jacobian:affine-inexact:%s:selection-map' % method, jc, text, n)
+        return text
+    return '%s: exact' % head
+
+
+def work_select(chunk, tier='quick'):
+    acc = fw.Acc()
+    nmax = 6 if tier == 'quick' else 8
+    for name, ptk in chunk:
+        for n in range(1, nmax + 1):
+            for method in METHODS:
+                for order in ORDERS:
+                    do_select(acc, name, n, ptk, method, order)
+    return acc
+
+
 def work(chunk, tier='quick'):
     acc = fw.Acc()
     for spec, ptk in chunk:
@@ -588,6 +681,7 @@ def required_cells(tier):
     req += ['ridge/g=%s' % g for g in ridge.FUNS] + ['ridge/h=%s' % g for g in ridge.FUNS]
     req += ['grad/form=%s' % f for f in GRAD_FORMS] + ['grad/size1', 'grad/size>1']
     req += ['grad/method=%s/order=%d' % (me, o) for me in METHODS for o in ORDERS]
+    req += ['select/map=%s' % mname for mname in SELECT_MAPS]
     req += ['dd/v=%s' % v for v in V_KINDS] + ['dd/vform=%s' % f for f in V_FORMS]
     req += ['dd/method=%s/order=%d' % (me, o) for me in METHODS for o in ORDERS]
     return req
@@ -599,6 +693,7 @@ def run(ctx):
     items = [(s, p) for s in sp for p in ridge.POINT_KINDS]
     items.sort(key=lambda it: -(it[0][2] * it[0][3] * it[0][4] + (10 * it[0][3] if it[0][1] == 'scalar' else 0)))
     acc = ctx.pmap(work, items, chunk=1, tier=ctx.tier)
+    acc.merge(ctx.pmap(work_select, [(mname, p) for mname in SELECT_MAPS for p in ridge.POINT_KINDS], chunk=1, tier=ctx.tier))
     b = bounds(ctx.tier)
     for s in [('affine', 'vector', 1, 3, 1, 0), ('ridge', 'vector', 1, 2, 1, ctx.rotate(range(N_VARIANTS), 3)[0]),
               ('ridge', 'vector', 3, 1, 1, 0), ('ridge', 'matrix', 2, 3, 2, 0), ('ridge', 'scalar', 1, 4, 1, 1)]:
@@ -628,7 +723,8 @@ def run(ctx):
         '%d maps R^n -> R^m / R^(m x k) (n <= %d, m <= %d, k <= %d): affine A x + b with non-symmetric '
         'integer-plus-half coefficients, and ridge maps f[i,l] = g(a.x) h(b.x), g, h in {exp, sin, cosh, arctan, '
         'square, 1/(2+t^2)} (%d coefficient/function variants for scalar and vector maps, %d for matrix-valued), '
-        'returned as 0-d value, length-m vector or (m, k) matrix; x 4 point families (0.3+0.1 i; all 25; all 1e-3; '
+        'returned as 0-d value, length-m vector or (m, k) matrix; + the affine selection maps x, x[::-1], x[1:], x[::2], '
+        'x.reshape(2, n/2)(.T) that return VIEWS of their argument (exact 0/1 Jacobians, n <= 6 (8)); x 4 point families (0.3+0.1 i; all 25; all 1e-3; '
         'mixed sign) x input forms (list, 1-d array, (n,1) column, float and 0-d array for n = 1) x 5 methods x '
         'order in (2, 4).  Oracle: shape exactly (m, n) / (m, n, k) ((m, n, 1) for a column x); every class-A entry '
         '(analyticity radius of t -> f_i(x + t e_j) >= c_A x largest documented step) within E(method, 1) x S_1 of the '
@@ -654,6 +750,10 @@ def run(ctx):
 
 
 def replay(case):
+    if case.get('part') == 'select':
+        acc = fw.Acc()
+        text = do_select(acc, case['map'], case['n'], case['point'], case['method'], int(case['order']))
+        return not acc.viol, text
     spec = tuple(case['spec'])
     ptk, method, order = case['point'], case['method'], int(case['order'])
     acc = fw.Acc()
